@@ -165,7 +165,22 @@ Blocks(o) == {o.blocks[i].b : i \in 1..Len(o.blocks)}
 PairSet(ps) == {<<ps[i].a, ps[i].d>> : i \in 1..Len(ps)}
 SeqMap(s, F(_)) == [i \in 1..Len(s) |-> F(s[i])]
 
-(* ---- model / code conformance (harness matters) ------------------------ *)
+(* ---- model / code conformance (harness matters, exit 2, never a verdict) -------------------------------- *)
+(* HarnessFilter : a receipt handler of miner/m_handler.go let a message through / dropped it where the     *)
+(*                 model's Filter* operator says the opposite (or the node's push into its message channel *)
+(*                 took longer than the harness waits)                                                       *)
+(* HarnessCur    : chain.GetCurrentRound differs from the model's cur (a move to the next round happened / *)
+(*                 did not happen: ProgressOnNotarization, waitNotAhead, StartNextRound)                     *)
+(* HarnessLFB    : latest finalized block, its round, the LFB ticket or the chain's round timeout count     *)
+(*                 differ (finalization hand-off, restartRound)                                              *)
+(* HarnessRounds : a round object differs from the model's (printed: field, model value, code value): VRF   *)
+(*                 share handling, seed, phase, timeout counts, proposals, verification collector, own     *)
+(*                 ticket, notarized list, finalizing state                                                  *)
+(* HarnessBlocks : a block object differs: block state, ticket signers, number of valid tickets, notarized *)
+(*                 flag, stored rank, state computed                                                         *)
+(* HarnessAtRest : the model still has a goroutine to run after Settle's fuel was used up                   *)
+(* Either the model does not describe the code (the usual case while the code changes in a way no listed    *)
+(* property cares about) or the harness observed the node before it had come to rest.                       *)
 \* the receipt handler let the message through exactly when the model says so
 HarnessFilter == ev.ev = "Recv" => flt = ev.queued
 
